@@ -370,6 +370,8 @@ def _slots(k, a):
         return (False, False)
     le = k.listexpr(L.source)
     if le is None:
+        if L.source[0] == "v" and L.source[1] in getattr(k.func, "params", ()) and "next" not in L.source[1]:
+            return (False, False)    # a list handed in by the caller (operands resolved beforehand): what its slots hold is not known here
         if L.source[0] in ("attr", "v"):
             return (any(x[0] == "idx" and x[1][0] == "elem" and x[2] == C(0) for x in C02._sub(a)), _is_target_index(a))
         return (False, False)        # an opaque source: the slots of its elements are not known to be label / index
